@@ -224,6 +224,7 @@ func (si slotInfo) ntCount() int {
 func (v *verifier) genTables() string {
 	t := v.tabs
 	var sb strings.Builder
+	sb.WriteString("(declare-fun ntchild (S_bsr_BSR Int) S_bsr_BSR)\n")
 	sb.WriteString(";; gentables: generated on every run from grammar/parser/{symbols,slot} and the initialiser of package exec\n")
 	var names []string
 	for n := range t.ntByName {
@@ -265,6 +266,25 @@ func (v *verifier) genTables() string {
 	for _, k := range nts {
 		if same[k] {
 			fmt.Fprintf(&sb, "(assert (forall ((l Int)) (! (=> (= (labelNT l) %d) (= (labelNNT l) %d)) :pattern ((labelNNT l)))))\n", k, cnt[k])
+		}
+	}
+	// nonterminal of the i-th nonterminal child, for nonterminals with a single alternate (A-BSR: the forest follows the slot table)
+	altCount := map[int64]int{}
+	for _, si := range t.slots {
+		if int(si.Pos) == len(si.Symbols) {
+			altCount[si.NT]++
+		}
+	}
+	for _, si := range t.slots {
+		if int(si.Pos) != len(si.Symbols) || altCount[si.NT] != 1 {
+			continue
+		}
+		idx := 0
+		for _, sy := range si.Symbols {
+			if sy.IsNT {
+				fmt.Fprintf(&sb, "(assert (forall ((b S_bsr_BSR)) (! (=> (= (labelNT (f_S_bsr_BSR_Label b)) %d) (= (labelNT (f_S_bsr_BSR_Label (ntchild b %d))) %d)) :pattern ((ntchild b %d) (labelNT (f_S_bsr_BSR_Label b))))))\n", si.NT, idx, sy.Val, idx)
+				idx++
+			}
 		}
 	}
 	// handler registry as a total function
